@@ -49,8 +49,18 @@
 
 using namespace vf;
 
+// Build only a part of the configurations (parallel / faster compilation); cases of the other parts are skipped:
+//   -DVF_CAP_MASK=m     bit 0: capacity 16, bit 1: capacity 24, bit 2: capacity 64 (default 7)
+//   -DVF_TYPE_PARTS=n -DVF_TYPE_PART=k   only the stored types whose index % n == k are generated as STORED types
+//                       (isType is still asked for every type of the capacity)
 #ifndef VF_CAP_MASK
-#define VF_CAP_MASK 7   // bit 0: capacity 16, bit 1: 24, bit 2: 64
+#define VF_CAP_MASK 7
+#endif
+#ifndef VF_TYPE_PARTS
+#define VF_TYPE_PARTS 1
+#endif
+#ifndef VF_TYPE_PART
+#define VF_TYPE_PART 0
 #endif
 
 // ------------------------------------------------------------------ message building, out of line (keeps the generated code small)
@@ -511,7 +521,7 @@ struct World
 			}
 			else if(c < 65) t = (Cap + 24) + (int)rng.below((uint32_t)(NT - (Cap + 24))); // the non-Blob types
 			else t = (int)rng.below((uint32_t)NT);
-			if(t < 0 || t >= NT) continue;
+			if(t < 0 || t >= NT || ! ops[t].feed) continue;
 			if(needCopyable && ! ops[t].copyable) continue;
 			return t;
 		}
@@ -610,6 +620,7 @@ struct World
 		log("queue created");
 	}
 	struct GenericL { World * w; int ev; void operator() (const AD & ad) const { w->onGeneric(ev, ad); } };
+	__attribute__((noinline)) void appendCallback(int ev, const typename Q::Callback & cb) { q->appendListener(ev, cb); }
 	void needListeners(int t) {
 		std::vector<char> & l = listeners[(size_t)t];
 		if(l.empty()) { GenericL g; g.w = this; g.ev = t; q->appendListener(t, g); l.push_back('G'); }
@@ -868,7 +879,9 @@ struct World
 
 	// ---------- exhaustive sweep: every type x every construction form
 	void runExhaustive() {
+		int done = 0;
 		for(int t = 0; t < NT && ! dead; ++t) {
+			if(! ops[t].feed) continue;
 			for(int form = 0; form < F_FORMS && ! dead; ++form) {
 				if(! ops[t].copyable && form != F_RVALUE && form != F_TEMP) continue;
 				int fromIdx = -1;
@@ -887,7 +900,7 @@ struct World
 			}
 			// drop what is left of this type, run the queue now and then
 			for(int hi = (int)holders.size() - 1; hi >= 0; --hi) if(holders[(size_t)hi].t == t && rng.chance(3, 4)) doDrop(hi);
-			if(t % 8 == 7 && ! dead) {
+			if(++done % 8 == 0 && ! dead) {
 				const uint32_t c = rng.below(6);
 				if(c == 0) { doProcessOne(); doProcess(); }
 				else if(c == 1) { doProcessIf(false); doProcess(); }
@@ -940,32 +953,37 @@ struct TOps
 	static void inspect(const T & src, SrcInfo & si) { si.fp = R::fp(src); si.state = R::srcState(src); si.shares = R::shares(src); }
 
 	// hands the source object over in the requested value category, then reports the state of the source
+	// (const sources are the same object seen through a const reference; a temporary is an rvalue whose source nobody looks at)
 	static void feed(W & w, int sk, int form, int id, const AD * from)
 	{
 		SrcInfo si; si.fp = 0; si.state = -1; si.shares = -1;
 		if constexpr (R::copyable) {
-			if(form == F_LVALUE) {
+			if(form == F_FROM_HELD) {
+				const T & src = from->template get<T>();
+				const LedgerSnap s0 = w.beforeUse();
+				sink(w, sk, id, src);
+				inspect(src, si);
+				w.afterFeed(form, id, si, s0);
+				return;
+			}
+			if(form == F_LVALUE || form == F_CONST_LVALUE || form == F_CONST_RVALUE) {
 				T src(R::make(id));
+				const T & csrc = src;
 				const LedgerSnap s0 = w.beforeUse();
-				if(sk == SK_DISPATCH) sink(w, sk, id, static_cast<const T &>(src)); else sink(w, sk, id, src);
-				inspect(src, si); w.afterFeed(form, id, si, s0);
+				if(form == F_LVALUE && sk != SK_DISPATCH) sink(w, sk, id, src);
+				else if(form == F_CONST_RVALUE && sk == SK_CONSTRUCT) sink(w, sk, id, std::move(csrc));
+				else sink(w, sk, id, csrc); // the queue is fed const rvalues as const lvalues, dispatch plain lvalues as const lvalues
+				inspect(src, si);
+				w.afterFeed(form, id, si, s0);
 				return;
 			}
-			if(form == F_CONST_LVALUE) { const T src(R::make(id)); const LedgerSnap s0 = w.beforeUse(); sink(w, sk, id, src); inspect(src, si); w.afterFeed(form, id, si, s0); return; }
-			if(form == F_CONST_RVALUE) {
-				const T src(R::make(id));
-				const LedgerSnap s0 = w.beforeUse();
-				if(sk == SK_CONSTRUCT) sink(w, sk, id, std::move(src)); else sink(w, sk, id, src); // the queue is fed const rvalues as const lvalues
-				inspect(src, si); w.afterFeed(form, id, si, s0);
-				return;
-			}
-			if(form == F_FROM_HELD) { const T & src = from->template get<T>(); const LedgerSnap s0 = w.beforeUse(); sink(w, sk, id, src); inspect(src, si); w.afterFeed(form, id, si, s0); return; }
 		}
 		(void)from;
-		if(form == F_RVALUE) { T src(R::make(id)); const LedgerSnap s0 = w.beforeUse(); sink(w, sk, id, std::move(src)); si.state = R::srcState(src); w.afterFeed(form, id, si, s0); return; }
+		T src(R::make(id));
 		const LedgerSnap s0 = w.beforeUse();
-		sink(w, sk, id, R::make(id));
-		w.afterFeed(F_TEMP, id, si, s0);
+		sink(w, sk, id, std::move(src));
+		if(form == F_RVALUE) si.state = R::srcState(src);
+		w.afterFeed(form == F_RVALUE ? F_RVALUE : F_TEMP, id, si, s0);
 	}
 
 	// every accessor, getAddress and get twice
@@ -990,7 +1008,7 @@ struct TOps
 	}
 
 	struct TypedL { W * w; int ev; void operator() (const T & v) const { w->onTyped(ev, R::fp(v)); } };
-	static void appendTyped(W & w, int ev) { TypedL l; l.w = &w; l.ev = ev; w.q->appendListener(ev, l); }
+	static void appendTyped(W & w, int ev) { TypedL l; l.w = &w; l.ev = ev; const typename W::Q::Callback cb(l); w.appendCallback(ev, cb); }
 
 	static OpsRow<Cap> row() {
 		OpsRow<Cap> r;
@@ -1000,12 +1018,23 @@ struct TOps
 	}
 };
 
-template <int Cap, typename ...Ts>
-static std::vector<OpsRow<Cap> > makeTable(TL<Ts...>)
+template <int Cap, typename T, bool Enabled> struct RowOf { static OpsRow<Cap> get() { return TOps<Cap, T>::row(); } };
+template <int Cap, typename T> struct RowOf<Cap, T, false>
+{
+	static OpsRow<Cap> get() {
+		OpsRow<Cap> r;
+		r.size = (int)sizeof(T); r.align = (int)alignof(T); r.cls = Tr<T>::cls; r.copyable = Tr<T>::copyable;
+		r.feed = nullptr; r.read = nullptr; r.appendTyped = nullptr; // not a stored type of this binary
+		return r;
+	}
+};
+
+template <int Cap, typename ...Ts, std::size_t ...I>
+static std::vector<OpsRow<Cap> > makeTable(TL<Ts...>, std::index_sequence<I...>)
 {
 	std::vector<OpsRow<Cap> > v;
 	v.reserve(sizeof...(Ts));
-	const int dummy[] = { (v.push_back(TOps<Cap, Ts>::row()), 0)... };
+	const int dummy[] = { (v.push_back(RowOf<Cap, Ts, (I % VF_TYPE_PARTS) == VF_TYPE_PART>::get()), 0)... };
 	(void)dummy;
 	for(size_t i = 0; i < v.size(); ++i) v[i].name = typeName(v[i].cls, v[i].size);
 	return v;
@@ -1014,7 +1043,7 @@ static std::vector<OpsRow<Cap> > makeTable(TL<Ts...>)
 template <int Cap>
 static void runCap(uint64_t caseNo, Rng & rng)
 {
-	static const std::vector<OpsRow<Cap> > table = makeTable<Cap>(typename TypesOf<Cap>::Type());
+	static const std::vector<OpsRow<Cap> > table = makeTable<Cap>(typename TypesOf<Cap>::Type(), std::make_index_sequence<TypesOf<Cap>::Type::size>());
 	ledger().resetCase();
 	if(! blobMap().empty()) blobMap().clear(); // leftovers of a case that ended in a violation
 	const bool exhaustive = ctx().mode == "exhaustive";
